@@ -45,7 +45,8 @@ def int_decorator(size, id_, min_, max_):
             if not isinstance(value, (int, long)):
                 raise ProphyError("not an int")
             if not min_ <= value <= max_:
-                raise ProphyError("value: {} out of {}B integer's bounds: [{}, {}]".format(value, size, min_, max_))
+                shown = value if abs(value) < (1 << 128) else "a number of %d bits" % value.bit_length()
+                raise ProphyError("value: {} out of {}B integer's bounds: [{}, {}]".format(shown, size, min_, max_))
             """ subclasses of int (bool, IntEnum, re.RegexFlag) are stored as the plain integer they encode as """
             return value if type(value) in (int, long) else int(value)
 
@@ -70,8 +71,9 @@ def float_decorator(size, id_):
             try:
                 struct.pack('<' + id_, value)
             except (OverflowError, struct.error):
-                raise ProphyError("value: {} out of {}B float's bounds".format(value, size))
-            return value
+                shown = value if isinstance(value, float) or abs(value) < (1 << 128) else "a number of %d bits" % value.bit_length()
+                raise ProphyError("value: {} out of {}B float's bounds".format(shown, size))
+            return float(value) if isinstance(value, bool) else value
 
         cls._check = check
 
